@@ -155,6 +155,17 @@ func LoadFindings(path string) ([]Finding, error) {
 	return fs, nil
 }
 
+// MinFailures lists the rules that matched fewer instances than confirmed by hand.
+func (r *Result) MinFailures() []string {
+	var out []string
+	for _, ri := range r.Rules {
+		if ri.Instances < ri.Min {
+			out = append(out, fmt.Sprintf("rule %s matched %d instances, fewer than %d", ri.ID, ri.Instances, ri.Min))
+		}
+	}
+	return out
+}
+
 // Finish applies known findings, checks minimum counts, writes evidence and
 // replay files, prints the verdict lines and returns the exit code.
 func (r *Result) Finish(verifDir string, findings []Finding) int {
